@@ -1,4 +1,5 @@
 import RepeVerif.Lemmas.Peers
+import RepeVerif.Lemmas.PeersLifecycle
 import RepeVerif.Gen.Peers
 /-!
 # C18 — The peer registry and its aliases stay mutually consistent
@@ -25,11 +26,28 @@ clause → theorem
                                                           re-extracted from the source; every interleaving of whole
                                                           calls is a sequential history, to which all of the above apply)
 
+Deepening pass (second table; same clauses, stated on positions of the history and on the entry points
+users call, plus the rest of `src/peer.rs`):
+* lookup ⇔ an accepted, owner-changing `alias p k` at some position, `p` not removed since, no later
+  accepted `alias q k` ......................................... `lookup_iff_assigned_since` (`AssignedSince`, no fold)
+* alias list = keys assigned since some position, ordered by
+  those positions ............................................. `alias_list_by_assignment_calls`
+* presence = inserted and not removed since .................... `present_iff_inserted_and_not_removed`
+* remove / broadcast on the state after *any* history .......... `remove_after_any_history`, `broadcast_entry_points`
+* the four `broadcast_notify_*` entry points incl. encoder
+  error, format codes re-read from the source .................. `broadcast_entry_points`
+* `PeerHandle::send_notify/is_connected`, `CallContext` ........ `handle_forwards_to_its_sink`, `plain_contexts_never_cancel`
+* `insert`'s contract: minted / distinct ids never re-insert;
+  what exactly happens outside the contract .................... `minted_ids_respect_contract`, `distinct_ids_respect_contract`,
+                                                                 `reinsert_outside_contract`
+* forms of the source branches the model mirrors ............... `source_forms`
+* composition with C15's lifecycle model ....................... `lifecycle_runs_are_registry_histories`
+
 The model (`Model/Peers.lean`) mirrors `RegistryInner`'s three maps and the branches of
 `alias`/`remove`/`get_by`/`key_for`/`aliases_for`/`broadcast_each`.  Re-inserting a present id is
 outside `insert`'s documented contract (`debug_assert!`); the theorems nevertheless hold for such
-histories too (the model overwrites the handle like the code does), the correspondence runs do not
-generate them.
+histories too (the model overwrites the handle like the code does, see `reinsert_outside_contract`),
+the correspondence runs do not generate them.
 -/
 namespace Repe.C18
 open Repe.Peers
@@ -261,5 +279,201 @@ example : (after demo).present 7 = false ∧ (after demo).present 1 = true := by
 example : (broadcast (after demo) "/p" 2 [1, 2] (fun _ => .ok)).2 = [(1, .ok), (0, .ok)] := by decide
 example : Merge [[.insert 0 1, .alias 0 "a"], [.remove 0]] [.insert 0 1, .remove 0, .alias 0 "a"] :=
   .pick _ 0 _ _ _ rfl (.pick _ 1 _ _ _ rfl (.pick _ 0 _ _ _ rfl (.done _ (by simp))))
+
+/-! ## Deepening pass: declarative history statements, entry points, contract, source forms, composition -/
+
+/-- **Lookup, declaratively.** `get_by(k)` returns (a handle of) peer `p` after history `h` iff some call
+`h[n] = alias p k` was accepted (p present then) and changed k's owner, no later call removed `p`, and no
+later accepted `alias q k` re-pointed the key — positions in the history, no auxiliary fold. -/
+theorem lookup_iff_assigned_since (h : List Op) (k : Key) (p : Nat) :
+    (∃ t, getBy (after h) k = some ⟨p, t⟩) ↔ ∃ n, AssignedSince h k p n := by
+  rw [(lookup_iff_last_assignment_still_present h k).2.2 p]
+  constructor
+  · intro ho; exact ⟨_, (owner_since_iff h k p _).1 ⟨ho, rfl⟩⟩
+  · rintro ⟨n, ha⟩; exact ((owner_since_iff h k p n).2 ha).1
+
+/-- **Alias lists, declaratively.** `k ∈ aliases_for(p)` iff `k` has been assigned to `p` since some call
+`n` (as above); and if `a` precedes `b` in the list then `a`'s assignment call precedes `b`'s. -/
+theorem alias_list_by_assignment_calls (h : List Op) (p : Nat) :
+    (∀ k, k ∈ aliasesFor (after h) p ↔ ∃ n, AssignedSince h k p n) ∧
+    (aliasesFor (after h) p).Pairwise
+      (fun a b => ∀ na nb, AssignedSince h a p na → AssignedSince h b p nb → na < nb) := by
+  obtain ⟨hmem, _, hsorted⟩ := alias_list_exact_in_order h p
+  refine ⟨fun k => ?_, hsorted.imp ?_⟩
+  · rw [hmem k]
+    constructor
+    · intro ho; exact ⟨_, (owner_since_iff h k p _).1 ⟨ho, rfl⟩⟩
+    · rintro ⟨n, ha⟩; exact ((owner_since_iff h k p n).2 ha).1
+  · intro a b hab na nb ha hb
+    rw [← ((owner_since_iff h a p na).2 ha).2, ← ((owner_since_iff h b p nb).2 hb).2]
+    exact hab
+
+/-- **Presence, declaratively.** `get(p)` is `Some` after `h` iff some call inserted `p` and no later call
+removed it. -/
+theorem present_iff_inserted_and_not_removed (h : List Op) (p : Nat) :
+    (after h).present p = true ↔ ∃ h1 t h2, h = h1 ++ Op.insert p t :: h2 ∧ ∀ op ∈ h2, op ≠ Op.remove p := by
+  rw [(coupled_after h).present p]; exact present_iff_inserted_not_removed h p
+
+/-- `remove` / `broadcast` on the state reached by *any* history (no invariant hypothesis left). -/
+theorem remove_after_any_history (h : List Op) (p : Nat) :
+    (remove (after h) p).2 = get (after h) p ∧
+    (∀ k, getBy (remove (after h) p).1 k =
+      if (getBy (after h) k).map (·.id) = some p then none else getBy (after h) k) ∧
+    aliasesFor (remove (after h) p).1 p = [] ∧
+    (∀ q, q ≠ p → aliasesFor (remove (after h) p).1 q = aliasesFor (after h) q ∧
+                  get (remove (after h) p).1 q = get (after h) q) := by
+  obtain ⟨a, b, c, _, d⟩ := remove_purges_exactly_own_keys (after h) (inv_after h) p
+  exact ⟨a, b, c, d⟩
+
+/-- **The four public broadcast entry points.** `broadcast_notify_json/_beve/_utf8/_raw` after any history:
+if the encoder fails nothing is sent and the call is an error; otherwise exactly one notification goes
+to each present peer's sink, carrying the caller's path, the once-encoded bytes and the helper's
+format code (json 2, beve 1, utf8 3, raw: the caller's), and the result map has one entry per present
+peer with that sink's answer.  The format codes and the shape of the send loop are re-read from the
+source on every run. -/
+theorem broadcast_entry_points (h : List Op) (hlp : Helper) (path : String) (encoded : Option Bytes)
+    (answer : Handle → SendResult) :
+    (Gen.Peers.helperFormat = [("broadcast_notify_json", some fmtJson), ("broadcast_notify_beve", some fmtBeve),
+        ("broadcast_notify_utf8", some fmtUtf8), ("broadcast_notify_raw", none)] ∧
+     Gen.Peers.broadcastLoopGuards = 0 ∧ Gen.Peers.broadcastResultInserts = 1 ∧
+     Gen.Peers.broadcastSnapshotCalls = 1 ∧ Gen.Peers.broadcastLoopsOverSnapshot = true) ∧
+    (encoded = none → broadcastNotify (after h) hlp path encoded answer = none) ∧
+    (∀ b, encoded = some b → ∃ r, broadcastNotify (after h) hlp path encoded answer = some r ∧
+      r.1.map (·.to) = snapshot (after h) ∧
+      (∀ hd, hd ∈ snapshot (after h) ↔ get (after h) hd.id = some hd) ∧
+      ((snapshot (after h)).map (·.id)).Nodup ∧
+      (∀ d ∈ r.1, d.path = path ∧ d.body = b ∧
+        d.fmt = match hlp with | .json => 2 | .beve => 1 | .utf8 => 3 | .raw f => f) ∧
+      r.2 = (snapshot (after h)).map (fun hd => (hd.id, answer hd))) := by
+  refine ⟨by decide, fun e => by rw [e]; rfl, fun b e => ?_⟩
+  subst e
+  have hb := broadcast_one_per_present_peer (after h) (inv_after h) path (hlp.body b).bodyFormat (hlp.body b).bytes answer
+  refine ⟨_, rfl, hb.1, hb.2.2.1, hb.2.1, fun d hd => ?_, hb.2.2.2.2.1⟩
+  obtain ⟨h1, h2, h3⟩ := hb.2.2.2.1 d hd
+  refine ⟨h1, ?_, ?_⟩
+  · rw [h3]; cases hlp <;> rfl
+  · rw [h2]; cases hlp <;> rfl
+
+/-- `PeerHandle::send_notify` / `is_connected` hand the call to the handle's own sink, unchanged. -/
+theorem handle_forwards_to_its_sink (answer : Handle → SendResult) (connected : Handle → Bool) (hd : Handle)
+    (path : String) (nb : NotifyBody) :
+    (hd.sendNotify answer path nb).1 = ⟨hd, path, nb.bodyFormat, nb.bytes⟩ ∧
+    (hd.sendNotify answer path nb).2 = answer hd ∧ hd.isConnected connected = connected hd :=
+  ⟨rfl, rfl, rfl⟩
+
+/-- `CallContext::new` / `detached` carry the method and the peer they were given and never report
+cancellation (only the crate-private `with_cancel` attaches a signal). -/
+theorem plain_contexts_never_cancel (m : String) (hd : Handle) :
+    (CallContext.new m hd).method = m ∧ (CallContext.new m hd).peer = some hd ∧
+    (CallContext.detached m).method = m ∧ (CallContext.detached m).peer = none ∧
+    (CallContext.new m hd).isCancelled = false ∧ (CallContext.detached m).isCancelled = false ∧
+    (CallContext.new m hd).cancelledResolves = false ∧ (CallContext.detached m).cancelledResolves = false ∧
+    ∀ fired, (CallContext.withCancel m hd fired).isCancelled = fired :=
+  ⟨rfl, rfl, rfl, rfl, rfl, rfl, rfl, rfl, fun _ => rfl⟩
+
+/-! ### the `insert` contract -/
+
+/-- **With the contract.** Ids minted by `next_peer_id` (one counter shared by every clone of the registry
+and every server wired to it) never repeat within 2^64 mints; a history whose inserted ids are pairwise
+distinct and initially absent — in particular one that inserts only freshly minted ids — respects the
+documented contract at every `insert`, so the `debug_assert!` never fires. -/
+theorem minted_ids_respect_contract (answer : Handle → SendResult) (counter n : Nat) (hc : counter + n ≤ 2 ^ 64)
+    (s : State) (h : List Op) (hids : insertedIds h = mintN counter n)
+    (hfresh : ∀ id ∈ mintN counter n, s.present id = false) :
+    mintN counter n = List.range' counter n ∧ (mintN counter n).Nodup ∧ ContractOk answer s h :=
+  ⟨mintN_eq_range counter n hc, mintN_nodup counter n hc,
+   distinct_fresh_inserts_respect_contract answer s h (hids ▸ mintN_nodup counter n hc) (hids ▸ hfresh)⟩
+
+theorem distinct_ids_respect_contract (answer : Handle → SendResult) (h : List Op)
+    (hnd : (insertedIds h).Nodup) : ContractOk answer State.empty h :=
+  distinct_fresh_inserts_respect_contract answer State.empty h hnd (fun _ _ => rfl)
+
+/-- **Without the contract** (`insert` of an id that is present, reachable state): the stored handle is
+replaced and *nothing else* changes: every alias of the old handle now resolves to the new one, lists,
+other peers and `len` are untouched, and the invariant still holds — so every theorem of this file
+applies to such histories as well; what is lost is only "a handle stays the one that was inserted".
+In a debug build the `debug_assert!` fires after this update, with the lock already released. -/
+theorem reinsert_outside_contract (h : List Op) (id t0 t : Nat) (hp : get (after h) id = some ⟨id, t0⟩) :
+    get (insert (after h) id t) id = some ⟨id, t⟩ ∧
+    (∀ q, q ≠ id → get (insert (after h) id t) q = get (after h) q) ∧
+    (∀ q, aliasesFor (insert (after h) id t) q = aliasesFor (after h) q) ∧
+    len (insert (after h) id t) = len (after h) ∧
+    (∀ k ∈ aliasesFor (after h) id, getBy (insert (after h) id t) k = some ⟨id, t⟩) ∧
+    Inv (insert (after h) id t) ∧
+    insertPanics (after h) id true = true ∧ insertPanics (after h) id false = false := by
+  have hl := (get_eq_some_iff _ _ _).1 hp
+  obtain ⟨a, b, c, _, d, e⟩ := reinsert_present (inv_after h) hl t
+  exact ⟨a, b, c, d, e, inv_insert (inv_after h) id t, by simp [insertPanics, State.present, hl], by simp [insertPanics]⟩
+
+/-! ### source forms -/
+
+/-- The branches of `alias`, `remove`, `key_for`, `get_by` in the current source have the forms the model
+mirrors (re-extracted on every run; a recognised deviating form — `swap_remove`, the forward insert
+before the presence check, no same-owner early return, detaching from the wrong list, `insert(0, …)`,
+`last()`, a reverse-index entry left behind, a purge guard other than the ownership comparison — makes
+this theorem fail). Dropping the defensive ownership comparison in `remove` altogether is accepted: under
+the invariant it always succeeds (`Lemmas.remove_eqs`). -/
+theorem source_forms :
+    Gen.Peers.aliasPresenceCheckFirst = true ∧ Gen.Peers.aliasSameOwnerEarlyReturn = true ∧
+    Gen.Peers.aliasDetachesPrevOwner = true ∧ Gen.Peers.aliasDetachForm = "retain" ∧
+    Gen.Peers.aliasPushForm = "push" ∧ Gen.Peers.removeDropsPeer = true ∧
+    Gen.Peers.removeTakesIndexEntry = true ∧
+    (Gen.Peers.removePurgeGuard = "forward_eq_id" ∨ Gen.Peers.removePurgeGuard = "none") ∧
+    Gen.Peers.keyForPick = "first" ∧ Gen.Peers.getByThroughPeers = true := by decide
+
+/-! ### composition with the connection lifecycle (C15) -/
+
+open Repe.Lifecycle in
+/-- **Composition (C15 ∘ C18).** Whatever the WebSocket server's connect/disconnect hooks of
+`with_peer_registry` (and handshake hooks that alias) do to a registry, interleaved in any way with
+arbitrary calls made for other peers (C15's `regRun`, used as defined there), is a C18 history: the
+registry state is `run` of the corresponding call list. Hence, starting from any reachable registry, the
+result is reachable, satisfies the invariant, and abstracts to the specification's run — no invariant
+hypothesis is needed by a client of this theorem. -/
+theorem lifecycle_runs_are_registry_histories (id tag : Nat) (keys : List Key) (items : List Item)
+    (r0 : State) (hr : Reachable r0) :
+    regRun id tag keys r0 items = (run (fun _ => .ok) r0 (items.flatMap (opsOfItem id tag keys))).1 ∧
+    Reachable (regRun id tag keys r0 items) ∧ Inv (regRun id tag keys r0 items) ∧
+    abs (regRun id tag keys r0 items) =
+      (Spec.run (fun _ => .ok) (abs r0) (items.flatMap (opsOfItem id tag keys))).1 := by
+  have key : ∀ (r : State), regRun id tag keys r items =
+      (run (fun _ => .ok) r (items.flatMap (opsOfItem id tag keys))).1 := by
+    induction items with
+    | nil => intro r; rfl
+    | cons it items ih =>
+      intro r
+      have hstep : regStep id tag keys r it = (run (fun _ => .ok) r (opsOfItem id tag keys it)).1 := by
+        cases it with
+        | foreign op => rfl
+        | ev e =>
+          cases e with
+          | cancel => rfl
+          | connect i =>
+            cases i with
+            | zero => rfl
+            | succ j =>
+              simp only [regStep, regEffect, opsOfItem]
+              cases keys[j]? <;> rfl
+          | disconnect i b =>
+            cases i with
+            | zero => rfl
+            | succ j => rfl
+      simp only [regRun, List.foldl_cons, List.flatMap_cons, Peers.run_append] at ih ⊢
+      rw [hstep]; exact ih _
+  rw [key r0]
+  have hreach := reachable_run (fun _ => .ok) hr (items.flatMap (opsOfItem id tag keys))
+  exact ⟨rfl, hreach, inv_of_reachable hreach, (run_refines _ (inv_of_reachable hr) _).1⟩
+
+/-- non-vacuity for the new hypotheses -/
+example : AssignedSince demo "a" 1 4 :=
+  ⟨[.insert 0 10, .insert 1 11, .alias 0 "a", .alias 0 "b"], [.alias 1 "c", .alias 7 "z"], rfl, rfl,
+   by decide, by decide, by decide, by
+     intro h2a q h2b e
+     rcases h2a with _ | ⟨x, _ | ⟨y, _ | ⟨z, r⟩⟩⟩ <;> simp at e⟩
+example : insertedIds demo = mintN 0 2 ∧ (insertedIds demo).Nodup ∧ 0 + 2 ≤ 2 ^ 64 := by decide
+example : get (after demo) 1 = some ⟨1, 11⟩ := by decide
+example : Reachable (after demo) := ⟨_, demo, rfl⟩
+example : broadcastNotify (after demo) .utf8 "/p" (some [104, 105]) (fun _ => .ok) =
+    some ([⟨⟨1, 11⟩, "/p", 3, [104, 105]⟩, ⟨⟨0, 10⟩, "/p", 3, [104, 105]⟩], [(1, .ok), (0, .ok)]) := by decide
 
 end Repe.C18
